@@ -135,7 +135,7 @@ def check_L1(chk, F, tag="container"):
                                found=got.show(), required=want.show(), nontrivial=bool(want.t))
             elif name == "unwrap_generic":
                 for ps in (True, False):
-                    it = Interp(F, DOMK, extern=ZEROS)
+                    it = Interp(F, DOMK, extern=dict(NALGEBRA, **ZEROS))   # any known constructor is interpreted (and compared), not left out
                     res = unref(it.call_body(body, [deriv("s", ps), DimV("R"), DimV("C")]))
                     want = var_of("s") if ps else Poly()
                     ok = isinstance(res, Mat) and equal(res.p, want) and res.shape == SHAPE
